@@ -132,6 +132,7 @@ structure ChRegs where
   patch : Timbre := Timbre.zero    -- m_insCache[c]
   b4 : Nat := 0                    -- m_regLFOSens[c]
   pan : Nat := 64                  -- last writePan value
+  refused : Bool := false          -- the last OPN2::noteOn refused its frequency (returned before the key-on write)
   deriving Repr, Inhabited
 
 /-- a frequency tap of the implementation: (chip channel, tone if exactly representable, hertz·coef) -/
@@ -217,7 +218,7 @@ def setRegs (c : Nat) (x : ChRegs) : M Unit := modify fun s => { s with regs := 
 /-- OPN2::noteOff -/
 def chipNoteOff (c : Nat) : M Unit := do
   let r ← getRegs c
-  setRegs c { r with keyOn := false }
+  setRegs c { r with keyOn := false, refused := false }
 
 /-- OPN2::noteOn: `tone` = none when the model cannot compute it exactly -/
 def chipNoteOn (c : Nat) (tone : Option Rat) : M Unit := do
@@ -234,13 +235,13 @@ def chipNoteOn (c : Nat) (tone : Option Rat) : M Unit := do
     | some x => if x != t.tone then modify fun s => { s with tapErr := s.tapErr ++ [s!"tap-tone c={c} model={x.num}/{x.den} impl={t.tone.num}/{t.tone.den}"] }
     | none => pure ()
     if t.refused then
-      pure ()
+      setRegs c { r with refused := true }
     else
       match Pitch.search t.hertz with
       | .error f => fault f
       | .ok sr =>
         let dtmul := (List.range 4).map fun op => (r.patch.ops[op * 7]?).getD 0   -- OPS[op].data[0]; ops has 28 entries by construction
-        setRegs c { r with keyOn := true, ftone := some sr.ftone, freqKnown := tone.isSome,
+        setRegs c { r with keyOn := true, refused := false, ftone := some sr.ftone, freqKnown := tone.isSome,
                            mul := Pitch.mulBytes sr.mulOffset dtmul }
 
 /-- OPN2::touchNote -/
@@ -412,36 +413,41 @@ def noteUpdateAll (midCh : Nat) (props : Nat) : M Unit := do
     let chNow ← getMidi midCh
     if (findNote chNow n.key).isSome then noteUpdate midCh n.key props
 
-/-- calculateChipChannelGoodness -/
-def goodness (s : S) (c : Nat) (ins : Timbre) : Except Fault Int := do
-  match s.chip[c]? with
-  | none => .error (.oob s!"m_chipChannels[{c}]")
-  | some chan =>
+/-- the bonus part of a user's contribution: same instrument (+ arpeggio candidate), percussion -/
+def userBonus (mc : Option MidiCh) (ins : Timbre) (jd : User) : Int :=
+  match mc.bind (findNote · jd.key) with
+  | some info =>
+    (if jd.timbre == ins then (if jd.vibdelay < 70000 || jd.kon > 20000000 then 310 else 300) else 0) +
+    (if info.isPerc then 50 else 0)
+  | none => 0
+
+/-- what one user contributes to the score of its chip channel (calculateChipChannelGoodness, loop body) -/
+def userDelta (mc : Option MidiCh) (ins : Timbre) (jd : User) : Int :=
+  userBonus mc ins jd -
+    (if jd.sus == 0 then 4000000 + Int.tdiv jd.kon 1000 else 500000 + Int.tdiv (Int.tdiv jd.kon 1000) 2)
+
+/-- calculateChipChannelGoodness as a pure function of the chip channel (no array access can fail here) -/
+def goodnessP (midi : List MidiCh) (chanAlloc : Int) (musicMode : Nat) (chan : ChipCh) (ins : Timbre) : Int :=
   let koffMs := Int.tdiv chan.koff 1000
   let base : Int := -koffMs
-  let alloc : Int := if s.chanAlloc == -1 then (if s.musicMode == 3 then 1 else 0) else s.chanAlloc
+  let alloc : Int := if chanAlloc == -1 then (if musicMode == 3 then 1 else 0) else chanAlloc
   if base < 0 && chan.users.isEmpty then
     let isSame := chan.recent == ins
     let s0 := base - 40000
-    if alloc == 1 then .ok (if isSame then 0 else s0)
-    else if alloc == 2 then .ok 0
-    else .ok (if isSame then -koffMs else s0)
+    if alloc == 1 then (if isSame then 0 else s0)
+    else if alloc == 2 then 0
+    else (if isSame then -koffMs else s0)
   else
-    let mut sc := base
-    for jd in chan.users do
-      let konMs := Int.tdiv jd.kon 1000
-      sc := sc - (if jd.sus == 0 then 4000000 + konMs else 500000 + Int.tdiv konMs 2)
-      match s.midi[jd.midCh]? with
-      | none => throw (.oob s!"m_midiChannels[{jd.midCh}]")
-      | some mc =>
-        match findNote mc jd.key with
-        | some info =>
-          if jd.timbre == ins then
-            sc := sc + 300
-            if jd.vibdelay < 70000 || jd.kon > 20000000 then sc := sc + 10
-          sc := sc + (if info.isPerc then 50 else 0)
-        | none => pure ()
-    .ok sc
+    chan.users.foldl (fun sc jd => sc + userDelta (midi[jd.midCh]?) ins jd) base
+
+/-- calculateChipChannelGoodness: `m_chipChannels[c]` and `m_midiChannels[jd.loc.MidCh]` must exist -/
+def goodness (s : S) (c : Nat) (ins : Timbre) : Except Fault Int :=
+  match s.chip[c]? with
+  | none => .error (.oob s!"m_chipChannels[{c}]")
+  | some chan =>
+    match chan.users.find? (fun jd => decide (jd.midCh ≥ s.midi.length)) with
+    | some jd => .error (.oob s!"m_midiChannels[{jd.midCh}]")
+    | none => .ok (goodnessP s.midi s.chanAlloc s.musicMode chan ins)
 
 /-- killSustainingNotes (with the held-key handling) -/
 def killSustainingNotes (midCh : Option Nat) (thisChan : Option Nat) (susType : Nat) : M Unit := do
@@ -570,48 +576,48 @@ def bankIns (banks : BankMap.BMap (List Ins)) (key idx : Nat) : Option (Except F
     | some i => some (.ok i)
     | none => some (.error (.oob s!"Bank::ins[{idx}]"))
 
-/-- instrument selection of realTime_NoteOn: exact bank, then the bank with LSB cleared, then bank 0 -/
-def resolve (banks : BankMap.BMap (List Ins)) (mode : Nat) (channel : Nat) (ch : MidiCh) (note : Nat) : Except Fault Resolved := do
+/-- `b->second.ins[midiins]` for a bank that is present; `none` when the bank is absent -/
+def look (banks : BankMap.BMap (List Ins)) (key idx : Nat) : Option (Except Fault Ins) := bankIns banks key idx
+
+/-- one fallback step: when the current choice is silent, try bank `key`; an absent bank leaves the choice as it is
+    (the C++ re-reads the same entry through the `bnk` pointer it still holds) -/
+def tryBank (banks : BankMap.BMap (List Ins)) (cur : Ins) (key idx : Nat) : Except Fault Ins :=
+  if flagNoSound cur then
+    match look banks key idx with
+    | some r => r
+    | none => .ok cur
+  else .ok cur
+
+/-- the bank number and instrument index a note-on addresses -/
+def addressOf (mode channel : Nat) (ch : MidiCh) (note : Nat) : Nat × Nat × Bool :=
   let isPerc := channel % 16 == 9 || ch.isXgPerc
   let gs := mode % 2 == 1
   let xg := mode / 2 % 2 == 1
-  let mut midiins := ch.patch
-  let mut bank := if ch.bankMsb != 0 || ch.bankLsb != 0 then (if gs then ch.bankMsb * 256 else ch.bankMsb * 256 + ch.bankLsb) else 0
   if isPerc then
-    bank := if xg then midiins + (if ch.bankMsb == 126 then 128 else 0) else midiins
-    midiins := note
-    bank := bank + percussionTag
-  let mut ains := Ins.empty
-  let mut haveBnk : Option Nat := none          -- key of the bank `bnk` points to
-  if bank % percussionTag > 0 then
-    match bankIns banks bank midiins with
-    | some r => ains ← r; haveBnk := some bank
-    | none => pure ()
-  if flagNoSound ains then
-    let fallback := bank / 128 * 128
-    if fallback != bank then
-      match bankIns banks fallback midiins with
-      | some r => ains ← r; haveBnk := some fallback
-      | none =>
-        match haveBnk with
-        | some k => match bankIns banks k midiins with
-          | some r => ains ← r
-          | none => pure ()
-        | none => pure ()
-  if flagNoSound ains then
-    match bankIns banks (bank / percussionTag % 2 * percussionTag) midiins with
-    | some r => ains ← r
-    | none =>
-      match haveBnk with
-      | some k => match bankIns banks k midiins with
-        | some r => ains ← r
-        | none => pure ()
-      | none => pure ()
-  -- "For non-zero banks": a blank result is reported against bank 0 / the channel's patch
-  if !isPerc && bank > 0 && flagNoSound ains then
-    bank := 0
-    midiins := ch.patch
-  .ok { ins := ains, midiins := midiins, bank := bank, isPerc := isPerc }
+    ((if xg then ch.patch + (if ch.bankMsb == 126 then 128 else 0) else ch.patch) + percussionTag, note, true)
+  else
+    ((if ch.bankMsb != 0 || ch.bankLsb != 0 then (if gs then ch.bankMsb * 256 else ch.bankMsb * 256 + ch.bankLsb) else 0), ch.patch, false)
+
+/-- the three lookups of realTime_NoteOn: exact bank, then the bank with LSB cleared, then bank 0 -/
+def resolveIns (banks : BankMap.BMap (List Ins)) (bank idx : Nat) : Except Fault Ins :=
+  match (if bank % percussionTag > 0 then tryBank banks Ins.empty bank idx else .ok Ins.empty) with
+  | .error f => .error f
+  | .ok a1 =>
+    match (if bank / 128 * 128 != bank then tryBank banks a1 (bank / 128 * 128) idx else .ok a1) with
+    | .error f => .error f
+    | .ok a2 => tryBank banks a2 (bank / percussionTag % 2 * percussionTag) idx
+
+/-- instrument selection of realTime_NoteOn -/
+def resolve (banks : BankMap.BMap (List Ins)) (mode : Nat) (channel : Nat) (ch : MidiCh) (note : Nat) : Except Fault Resolved :=
+  match resolveIns banks (addressOf mode channel ch note).1 (addressOf mode channel ch note).2.1 with
+  | .error f => .error f
+  | .ok a3 =>
+    -- "For non-zero banks": a blank result is reported against bank 0 / the channel's patch
+    if !(addressOf mode channel ch note).2.2 && (addressOf mode channel ch note).1 > 0 && flagNoSound a3 then
+      .ok { ins := a3, midiins := ch.patch, bank := 0, isPerc := (addressOf mode channel ch note).2.2 }
+    else
+      .ok { ins := a3, midiins := (addressOf mode channel ch note).2.1, bank := (addressOf mode channel ch note).1,
+            isPerc := (addressOf mode channel ch note).2.2 }
 
 /-! ## real-time events -/
 
@@ -869,22 +875,27 @@ def sysexParse (msg : List Nat) (devId : Nat) (nMidi : Nat) : Option SysExEffect
     | _ => none
   | _ => none
 
+/-- the documented effect of a recognised message -/
+def applySysEx (eff : SysExEffect) : M Unit := do
+  let s ← get
+  match eff with
+  | .gmOn => do modify (fun s => { s with mode := 0 }); realTimeResetState
+  | .gmOff => do modify (fun s => { s with mode := 2 }); realTimeResetState
+  | .gsReset => do modify (fun s => { s with mode := 1 }); realTimeResetState
+  | .xgOn => do modify (fun s => { s with mode := 2 }); realTimeResetState
+  | .masterVolume v => do
+      modify fun s => { s with master := v }
+      for ch in List.range s.midi.length do noteUpdateAll ch updVolume
+  | .drumPart ch on => modMidi ch fun c => { c with isXgPerc := on }
+
 /-- realTime_SysEx -/
 def realTimeSysEx (msg : List Nat) : M Bool := do
   let s ← get
   match sysexParse msg s.devId s.midi.length with
-  | none => return false
-  | some eff =>
-    match eff with
-    | .gmOn => do modify (fun s => { s with mode := 0 }); realTimeResetState
-    | .gmOff => do modify (fun s => { s with mode := 2 }); realTimeResetState
-    | .gsReset => do modify (fun s => { s with mode := 1 }); realTimeResetState
-    | .xgOn => do modify (fun s => { s with mode := 2 }); realTimeResetState
-    | .masterVolume v => do
-        modify fun s => { s with master := v }
-        for ch in List.range s.midi.length do noteUpdateAll ch updVolume
-    | .drumPart ch on => modMidi ch fun c => { c with isXgPerc := on }
-    return true
+  | none => pure false
+  | some eff => do
+    applySysEx eff
+    pure true
 
 /-! ## time -/
 
